@@ -1250,6 +1250,22 @@ func (o *Origins) load(u *ssa.UnOp) *Ex {
 		// captured variable (by reference)
 		return o.reaching(r, path, u, u.Block(), instrIndex(u))
 	case *ssa.Parameter:
+		// read in the context of a call that passes the address of one of the caller's variables: the content the
+		// variable has at the call, as long as this function does not itself write the part that is read
+		if o.caller != nil && o.call != nil && !o.call.Common().IsInvoke() && o.caller.Fn == o.call.Parent() {
+			for i, p := range o.Fn.Params {
+				if p != r || i >= len(o.call.Common().Args) {
+					continue
+				}
+				aroot, apath := addrRoot(o.call.Common().Args[i])
+				al, isLocal := aroot.(*ssa.Alloc)
+				if !isLocal || al.Parent() != o.caller.Fn || o.writesPath(r, path) {
+					break
+				}
+				full := append(append([]pathElem{}, apath...), path...)
+				return o.caller.reaching(al, full, o.call, o.call.Block(), instrIndex(o.call))
+			}
+		}
 		// a scalar handed in by pointer (a counter, a flag) that the function itself writes: a read behind the
 		// write sees the written value. (Only for pointers to basic types: a struct behind a pointer is written by
 		// every method called on it, and the rules name its fields as atoms.)
@@ -1271,6 +1287,43 @@ func (o *Origins) load(u *ssa.UnOp) *Ex {
 		return res
 	}
 	return o.pathExpr(u.X)
+}
+
+// writesPath: the function stores through the pointer parameter into the location path (or a part / a whole
+// containing it), or hands the pointer (or a field address) to something other than a load or a store.
+func (o *Origins) writesPath(p *ssa.Parameter, path []pathElem) bool {
+	if p.Referrers() == nil {
+		return false
+	}
+	var walk func(v ssa.Value, cur []pathElem) bool
+	walk = func(v ssa.Value, cur []pathElem) bool {
+		refs := v.Referrers()
+		if refs == nil {
+			return false
+		}
+		for _, r := range *refs {
+			switch y := r.(type) {
+			case *ssa.FieldAddr:
+				st := y.X.Type().Underlying().(*types.Pointer).Elem().Underlying().(*types.Struct)
+				if walk(y, append(append([]pathElem{}, cur...), pathElem{field: st.Field(y.Field).Name()})) {
+					return true
+				}
+			case *ssa.Store:
+				if y.Addr == v {
+					if isPrefix(cur, path) || isPrefix(path, cur) {
+						return true
+					}
+				} else {
+					return true // the address itself is stored
+				}
+			case *ssa.UnOp, *ssa.DebugRef:
+			default:
+				return true
+			}
+		}
+		return false
+	}
+	return walk(p, nil)
 }
 
 // storesThrough: the function stores directly through the pointer parameter.
@@ -1366,6 +1419,11 @@ func (o *Origins) reaching(root ssa.Value, path []pathElem, at ssa.Instruction, 
 		return mk("with", "", args...)
 	}
 	scan = func(b *ssa.BasicBlock, upto int, ovs []override) {
+		// partial writes collected around a loop grow with every turn: beyond a bound the content is unknown
+		if len(ovs) > 24 {
+			sources = append(sources, mk("opaque", "loop-carried partial writes"))
+			return
+		}
 		for i := upto - 1; i >= 0; i-- {
 			in := b.Instrs[i]
 			switch x := in.(type) {
@@ -1435,6 +1493,40 @@ func (o *Origins) reaching(root ssa.Value, path []pathElem, at ssa.Instruction, 
 						}
 					}
 				}
+				// a helper that is new on this tree and receives the address of the variable: what it writes through
+				// the pointer is read off its body (field stores that lie on every way to a success return, values in
+				// the helper's calling context); the rest of the variable is what it was before the call
+				if hovs, ok := o.newHelperWrites(x, root); ok {
+					done := false
+					for _, hv := range hovs {
+						switch {
+						case isPrefix(hv.path, path):
+							// the helper writes the very location that is read (or a struct it is part of)
+							val := hv.val
+							for _, pe := range path[len(hv.path):] {
+								if pe.field != "" {
+									val = project(val, pe.field)
+								}
+							}
+							sources = append(sources, finish(val, ovs))
+							done = true
+						case isPrefix(path, hv.path):
+							dup := false
+							for _, ov := range ovs {
+								if samePath(ov.path, hv.path[len(path):]) && ov.val.String() == hv.val.String() {
+									dup = true
+								}
+							}
+							if !dup {
+								ovs = append(append([]override{}, ovs...), override{hv.path[len(path):], hv.val})
+							}
+						}
+					}
+					if done {
+						return
+					}
+					continue
+				}
 				for ai, a := range cc.Args {
 					if der[a] {
 						d := o.p.Describe(x)
@@ -1495,6 +1587,75 @@ func (o *Origins) reaching(root ssa.Value, path []pathElem, at ssa.Instruction, 
 	}
 	scan(blk, idx, nil)
 	return mkPhi(sources)
+}
+
+type helperWrite struct {
+	path []pathElem
+	val  *Ex
+}
+
+// newHelperWrites: call x passes exactly the address `root` (path empty) to a module function that is new on
+// this tree; the function only stores through the parameter (fields), loads from it, and does not hand the
+// pointer on. Returns the field overrides that hold after a successful return of the helper.
+func (o *Origins) newHelperWrites(x ssa.CallInstruction, root ssa.Value) ([]helperWrite, bool) {
+	if o.depth >= 4 {
+		return nil, false
+	}
+	callee := x.Common().StaticCallee()
+	if callee == nil || callee.Blocks == nil || callee.Parent() != nil || !o.p.IsNewFunc(callee) {
+		return nil, false
+	}
+	var prm *ssa.Parameter
+	for i, a := range x.Common().Args {
+		if a == root {
+			if prm != nil || i >= len(callee.Params) {
+				return nil, false
+			}
+			prm = callee.Params[i]
+		} else if root2, _ := addrRoot(a); root2 == root {
+			return nil, false // a sub-address is passed as well
+		}
+	}
+	if prm == nil || prm.Referrers() == nil {
+		return nil, false
+	}
+	oc := o.Enter(callee, x)
+	succ := oc.SuccessReturns()
+	var out []helperWrite
+	for _, r := range *prm.Referrers() {
+		switch y := r.(type) {
+		case *ssa.FieldAddr:
+			if y.Referrers() == nil {
+				continue
+			}
+			for _, r2 := range *y.Referrers() {
+				switch z := r2.(type) {
+				case *ssa.Store:
+					if z.Addr != ssa.Value(y) {
+						return nil, false // the field address itself is stored somewhere
+					}
+					// the store lies on every way to a success return
+					for _, sr := range succ {
+						cut := NewCut()
+						cut.Barriers[z] = true
+						if reach, _ := ReachFromEntry(callee, sr, cut); reach {
+							return nil, false
+						}
+					}
+					st := y.X.Type().Underlying().(*types.Pointer).Elem().Underlying().(*types.Struct)
+					out = append(out, helperWrite{[]pathElem{{field: st.Field(y.Field).Name()}}, oc.Of(z.Val)})
+				case *ssa.UnOp, *ssa.DebugRef:
+				default:
+					return nil, false
+				}
+			}
+		case *ssa.UnOp, *ssa.DebugRef:
+			// a load of the whole value
+		default:
+			return nil, false // stored, passed on, compared ...
+		}
+	}
+	return out, true
 }
 
 type visitKey struct {
